@@ -6,7 +6,7 @@
    length, provided equal boards carry equal piece hashes - which C04 proves for boards whose hash is the
    from-scratch one (C15_threefold, C15_equal_boards_equal_hash), hence for every history of boards reached
    from a parsed board / the standard position by accepted moves (C15_threefold_reachable; side conditions of
-   `Reach`: the mover has a king, <= 400 owed moves).  Also decided per run by driving the real cdylib through its stable interface with the abstract history
+   `Reach`: the mover has a king).  Also decided per run by driving the real cdylib through its stable interface with the abstract history
    spec as monitor.  Interpretation (DESIGN.md): the position handed to set_board is not itself counted. *)
 From Coq Require Import NArith List Bool.
 From Chess Require Import base.Types model.Board model.MoveGen model.Apply model.Search model.Bot proofs.HashFacts proofs.BotFacts spec.IterSpec proofs.InvFacts proofs.Combine.
